@@ -10,6 +10,7 @@ Protocol form of a profile (JSON-able; candidates are ints):
 """
 import itertools
 from fractions import Fraction
+from decimal import Decimal
 from common import *   # noqa
 
 
@@ -258,6 +259,11 @@ def families():
                         notes='quota distributor awards whole quotas only'))
     F.append(Family('rel_threshold_5pc', 'simple', lambda: vt.RelativeThreshold(Fraction(5, 100)), kind='seatless',
                     n_seats=False))
+    # the library's own idiom (all real-election tests): Decimal thresholds; and a float, whose exact value counts
+    F.append(Family('rel_threshold_5pc_decimal', 'simple', lambda: vt.RelativeThreshold(Decimal('.05'), accept_equal=True),
+                    kind='seatless', n_seats=False))
+    F.append(Family('rel_threshold_5pc_float', 'simple', lambda: vt.RelativeThreshold(.05, accept_equal=True),
+                    kind='seatless', n_seats=False))
     F.append(Family('rel_threshold_third', 'simple', lambda: vt.RelativeThreshold(Fraction(1, 3), accept_equal=False),
                     kind='seatless', n_seats=False))
     F.append(Family('abs_threshold_2', 'simple', lambda: vt.AbsoluteThreshold(2), kind='seatless', n_seats=False,
